@@ -8,7 +8,9 @@
       term in the algebra [interp_fp p];
    5. rule_instance_valid / fp_deriv_sound: every admissible instance of a pool rule is an equation valid in
       the algebra, hence (Deriv_sound) everything derivable from such instances by the congruence [Deriv]
-      evaluates equally. *)
+      evaluates equally;
+   6. fppool_guards_needed: read with one of the slips and-as-or / or-as-and / not-dropped, the conditions of
+      the combinator-guarded rules make the rule invalid in F_2 (explicit matches: SLIP_WITNESSES). *)
 From SE Require Import Sem.Fp Sem.AlgebraFacts Parse.Parser Lang.LangMachine.
 From Coq Require Import Lia FunctionalExtensionality.
 
@@ -101,66 +103,66 @@ Section Valid.
   Ltac start :=
     unfold rule_valid; intros rho Hr Hf Hc env;
     cbn [peval fr_lhs fr_rhs mk va vb vc vt];
-    unfold cond_ok in Hc; cbn [fr_cond mk] in Hc.
+    unfold cond_ok in Hc; cbn [fr_cond mk cond_sem negb fr1 fr2] in Hc.
 
   Ltac fresh2 rho Hf v H :=
     assert (H : indep rho (T v) s2)
       by (apply Hf; [cbn; tauto | cbn; unfold s1, s2; intuition discriminate | cbn; tauto]).
 
-  Lemma rule0 : rule_valid p (nth 0 FPPOOL (mk va va None)).
+  Lemma rule0 : rule_valid p (nth 0 FPPOOL (mk va va FCTrue)).
   Proof.
     cbn [nth FPPOOL]. start. rewrite N.add_comm. reflexivity.
   Qed.
 
-  Lemma rule1 : rule_valid p (nth 1 FPPOOL (mk va va None)).
+  Lemma rule1 : rule_valid p (nth 1 FPPOOL (mk va va FCTrue)).
   Proof.
     cbn [nth FPPOOL]. start. rewrite N.mul_comm. reflexivity.
   Qed.
 
-  Lemma rule2 : rule_valid p (nth 2 FPPOOL (mk va va None)).
+  Lemma rule2 : rule_valid p (nth 2 FPPOOL (mk va va FCTrue)).
   Proof.
     cbn [nth FPPOOL]. start.
     rewrite N.add_mod_idemp_l, N.add_mod_idemp_r by exact Hp. rewrite N.add_assoc. reflexivity.
   Qed.
 
-  Lemma rule3 : rule_valid p (nth 3 FPPOOL (mk va va None)).
+  Lemma rule3 : rule_valid p (nth 3 FPPOOL (mk va va FCTrue)).
   Proof.
     cbn [nth FPPOOL]. start.
     rewrite N.mul_mod_idemp_l, N.mul_mod_idemp_r by exact Hp. rewrite N.mul_assoc. reflexivity.
   Qed.
 
-  Lemma rule4 : rule_valid p (nth 4 FPPOOL (mk va va None)).
+  Lemma rule4 : rule_valid p (nth 4 FPPOOL (mk va va FCTrue)).
   Proof.
     cbn [nth FPPOOL]. start.
     rewrite N.mul_mod_idemp_r by exact Hp. rewrite <- N.add_mod by exact Hp.
     rewrite N.mul_add_distr_l. reflexivity.
   Qed.
 
-  Lemma rule5 : rule_valid p (nth 5 FPPOOL (mk va va None)).
+  Lemma rule5 : rule_valid p (nth 5 FPPOOL (mk va va FCTrue)).
   Proof.
     cbn [nth FPPOOL]. start.
     rewrite N.mod_0_l by exact Hp. rewrite N.add_0_r. apply N.mod_small. apply Hr.
   Qed.
 
-  Lemma rule6 : rule_valid p (nth 6 FPPOOL (mk va va None)).
+  Lemma rule6 : rule_valid p (nth 6 FPPOOL (mk va va FCTrue)).
   Proof.
     cbn [nth FPPOOL]. start.
     rewrite N.mul_mod_idemp_r by exact Hp. rewrite N.mul_1_r. apply N.mod_small. apply Hr.
   Qed.
 
-  Lemma rule7 : rule_valid p (nth 7 FPPOOL (mk va va None)).
+  Lemma rule7 : rule_valid p (nth 7 FPPOOL (mk va va FCTrue)).
   Proof.
     cbn [nth FPPOOL]. start.
     rewrite N.mul_mod_idemp_r by exact Hp. rewrite N.mul_0_r. reflexivity.
   Qed.
 
-  Lemma rule8 : rule_valid p (nth 8 FPPOOL (mk va va None)).
+  Lemma rule8 : rule_valid p (nth 8 FPPOOL (mk va va FCTrue)).
   Proof.
     cbn [nth FPPOOL]. start.
     rewrite sum_upto_mod by exact Hp. rewrite sum_upto_add. apply N.add_mod. exact Hp.
   Qed.
 
-  Lemma rule9 : rule_valid p (nth 9 FPPOOL (mk va va None)).
+  Lemma rule9 : rule_valid p (nth 9 FPPOOL (mk va va FCTrue)).
   Proof.
     cbn [nth FPPOOL]. start.
     rewrite sum_upto_mod by exact Hp.
@@ -168,7 +170,7 @@ Section Valid.
     f_equal. apply sum_upto_ext. intros k _. rewrite Hc. reflexivity.
   Qed.
 
-  Lemma rule10 : rule_valid p (nth 10 FPPOOL (mk va va None)).
+  Lemma rule10 : rule_valid p (nth 10 FPPOOL (mk va va FCTrue)).
   Proof.
     cbn [nth FPPOOL]. start.
     rewrite !sum_upto_mod by exact Hp. rewrite sum_upto_swap. f_equal.
@@ -176,12 +178,12 @@ Section Valid.
     rewrite (upd_comm env s1 s2) by exact s1_s2. reflexivity.
   Qed.
 
-  Lemma rule11 : rule_valid p (nth 11 FPPOOL (mk va va None)).
+  Lemma rule11 : rule_valid p (nth 11 FPPOOL (mk va va FCTrue)).
   Proof.
     cbn [nth FPPOOL]. start. apply N.mod_small. apply Hr.
   Qed.
 
-  Lemma rule12 : rule_valid p (nth 12 FPPOOL (mk va va None)).
+  Lemma rule12 : rule_valid p (nth 12 FPPOOL (mk va va FCTrue)).
   Proof.
     cbn [nth FPPOOL]. start. fresh2 rho Hf "a"%string Ha.
     rewrite (sum_upto_mod p _ (fun z => rho (T "a") (upd N (upd N env s2 z) s1 (upd N env s2 z s2 mod p)))) by exact Hp.
@@ -190,17 +192,17 @@ Section Valid.
     rewrite (upd_comm env s2 s1) by exact s2_s1. rewrite Ha. reflexivity.
   Qed.
 
-  Lemma rule13 : rule_valid p (nth 13 FPPOOL (mk va va None)).
+  Lemma rule13 : rule_valid p (nth 13 FPPOOL (mk va va FCTrue)).
   Proof.
     cbn [nth FPPOOL]. start. rewrite upd_same. rewrite N.mod_mod by exact Hp. apply N.mod_small. apply Hr.
   Qed.
 
-  Lemma rule14 : rule_valid p (nth 14 FPPOOL (mk va va None)).
+  Lemma rule14 : rule_valid p (nth 14 FPPOOL (mk va va FCTrue)).
   Proof.
     cbn [nth FPPOOL]. start. rewrite Hc. apply N.mod_small. apply Hr.
   Qed.
 
-  Lemma rule15 : rule_valid p (nth 15 FPPOOL (mk va va None)).
+  Lemma rule15 : rule_valid p (nth 15 FPPOOL (mk va va FCTrue)).
   Proof.
     cbn [nth FPPOOL]. start.
     rewrite (sum_upto_ext _ _ (fun _ => rho (T "a") env)) by (intros k _; apply Hc).
@@ -208,20 +210,20 @@ Section Valid.
     rewrite N.mod_0_l by exact Hp. reflexivity.
   Qed.
 
-  Lemma rule16 : rule_valid p (nth 16 FPPOOL (mk va va None)).
+  Lemma rule16 : rule_valid p (nth 16 FPPOOL (mk va va FCTrue)).
   Proof.
     cbn [nth FPPOOL]. start.
     rewrite N.mul_mod_idemp_r by exact Hp. rewrite <- N.add_mod by exact Hp.
     rewrite N.mul_add_distr_l. reflexivity.
   Qed.
 
-  Lemma rule17 : rule_valid p (nth 17 FPPOOL (mk va va None)).
+  Lemma rule17 : rule_valid p (nth 17 FPPOOL (mk va va FCTrue)).
   Proof.
     cbn [nth FPPOOL]. start.
     rewrite N.mod_mod by exact Hp. apply N.add_mod. exact Hp.
   Qed.
 
-  Lemma rule18 : rule_valid p (nth 18 FPPOOL (mk va va None)).
+  Lemma rule18 : rule_valid p (nth 18 FPPOOL (mk va va FCTrue)).
   Proof.
     cbn [nth FPPOOL]. start. fresh2 rho Hf "b"%string Hb.
     rewrite upd_same. rewrite !N.mod_mod by exact Hp.
@@ -229,13 +231,13 @@ Section Valid.
     rewrite (upd_comm env s2 s1) by exact s2_s1. rewrite Hb. reflexivity.
   Qed.
 
-  Lemma rule19 : rule_valid p (nth 19 FPPOOL (mk va va None)).
+  Lemma rule19 : rule_valid p (nth 19 FPPOOL (mk va va FCTrue)).
   Proof.
     cbn [nth FPPOOL]. start.
     rewrite N.mod_mod by exact Hp. apply N.mul_mod. exact Hp.
   Qed.
 
-  Lemma rule20 : rule_valid p (nth 20 FPPOOL (mk va va None)).
+  Lemma rule20 : rule_valid p (nth 20 FPPOOL (mk va va FCTrue)).
   Proof.
     cbn [nth FPPOOL]. start.
     rewrite N.mod_mod by exact Hp. rewrite (sum_upto_mod p _ (fun z => rho (T "b") (upd N (upd N env s2 z) s1 (rho (T "t") (upd N env s2 z))))) by exact Hp.
@@ -243,13 +245,13 @@ Section Valid.
     rewrite Hc. rewrite (upd_comm env s1 s2) by exact s1_s2. reflexivity.
   Qed.
 
-  Lemma rule21 : rule_valid p (nth 21 FPPOOL (mk va va None)).
+  Lemma rule21 : rule_valid p (nth 21 FPPOOL (mk va va FCTrue)).
   Proof.
     cbn [nth FPPOOL]. start.
     rewrite N.mul_mod_idemp_l by exact Hp. f_equal. lia.
   Qed.
 
-  Lemma rule22 : rule_valid p (nth 22 FPPOOL (mk va va None)).
+  Lemma rule22 : rule_valid p (nth 22 FPPOOL (mk va va FCTrue)).
   Proof.
     cbn [nth FPPOOL]. start.
     rewrite sum_upto_mod by exact Hp.
@@ -257,12 +259,120 @@ Section Valid.
     f_equal. apply sum_upto_ext. intros k _. rewrite Hc. reflexivity.
   Qed.
 
-  Lemma rule23 : rule_valid p (nth 23 FPPOOL (mk va va None)).
+  Lemma rule23 : rule_valid p (nth 23 FPPOOL (mk va va FCTrue)).
   Proof.
     cbn [nth FPPOOL]. start.
     rewrite N.mod_mod by exact Hp.
     rewrite (N.mod_small (rho (T "c") (upd N env s2 (rho (T "t") env)))) by apply Hr.
     rewrite (upd_comm env s2 s1) by exact s2_s1. rewrite Hc. reflexivity.
+  Qed.
+
+  (* a sum of a constant over the whole carrier vanishes *)
+  Lemma sum_const_zero : forall c, sum_upto (N.to_nat p) (fun _ => c) mod p = 0.
+  Proof.
+    intro c. rewrite sum_upto_const. rewrite N2Nat.id. rewrite N.mul_comm. apply N.mod_mul. exact Hp.
+  Qed.
+
+  (* a double sum whose body ignores one of the two indices vanishes *)
+  Lemma sum2_zero : forall f : N -> N -> N,
+    (forall x x' y, f x y = f x' y) \/ (forall x y y', f x y = f x y') ->
+    sum_upto (N.to_nat p) (fun x => sum_upto (N.to_nat p) (fun y => f x y) mod p) mod p = 0.
+  Proof.
+    intros f [Hx|Hy].
+    - rewrite (sum_upto_ext _ _ (fun _ => sum_upto (N.to_nat p) (fun y => f 0 y) mod p)).
+      + apply sum_const_zero.
+      + intros k _. f_equal. apply sum_upto_ext. intros j _. apply Hx.
+    - rewrite (sum_upto_ext _ _ (fun _ => 0)).
+      + apply sum_const_zero.
+      + intros k _. rewrite (sum_upto_ext _ _ (fun _ => f (N.of_nat k) 0)) by (intros j _; apply Hy).
+        apply sum_const_zero.
+  Qed.
+
+  (* ---- rules guarded by and / or / not ---- *)
+
+  Lemma rule24 : rule_valid p (nth 24 FPPOOL (mk va va FCTrue)).
+  Proof.
+    cbn [nth FPPOOL]. start. destruct Hc as [Ha Hb].
+    rewrite (sum_upto_ext _ _ (fun _ => (rho (T "a") env * rho (T "b") env) mod p))
+      by (intros k _; rewrite Ha, Hb; reflexivity).
+    rewrite !sum_const_zero. rewrite N.mul_0_r. rewrite N.mod_0_l by exact Hp. reflexivity.
+  Qed.
+
+  Lemma rule25 : rule_valid p (nth 25 FPPOOL (mk va va FCTrue)).
+  Proof.
+    cbn [nth FPPOOL]. start. destruct Hc as [Ha Hb].
+    rewrite Ha, Hb. rewrite N.mod_mod by exact Hp. reflexivity.
+  Qed.
+
+  Lemma rule26 : rule_valid p (nth 26 FPPOOL (mk va va FCTrue)).
+  Proof.
+    cbn [nth FPPOOL]. start. destruct Hc as [Ha Hb].
+    rewrite Ha, Hb. rewrite N.mod_mod by exact Hp. reflexivity.
+  Qed.
+
+  Lemma rule27 : rule_valid p (nth 27 FPPOOL (mk va va FCTrue)).
+  Proof.
+    cbn [nth FPPOOL]. start. destruct Hc as [Ha _].
+    rewrite sum_upto_mod by exact Hp.
+    rewrite N.mul_mod_idemp_r by exact Hp. rewrite <- sum_upto_mulc.
+    f_equal. apply sum_upto_ext. intros k _. rewrite Ha. reflexivity.
+  Qed.
+
+  Lemma rule28 : rule_valid p (nth 28 FPPOOL (mk va va FCTrue)).
+  Proof.
+    cbn [nth FPPOOL]. start. rewrite N.mod_0_l by exact Hp.
+    apply (sum2_zero (fun x y => rho (T "a") (upd N (upd N env s1 x) s2 y))).
+    destruct Hc as [Ha|Ha].
+    - left. intros x x' y. rewrite !(upd_comm env s1 s2) by exact s1_s2. rewrite !Ha. reflexivity.
+    - right. intros x y y'. rewrite !Ha. reflexivity.
+  Qed.
+
+  Lemma rule29 : rule_valid p (nth 29 FPPOOL (mk va va FCTrue)).
+  Proof.
+    cbn [nth FPPOOL]. start. destruct Hc as [Ha Hb].
+    rewrite (sum_upto_ext _ _ (fun x => (rho (T "a") (upd N env s1 x) *
+                                          sum_upto (N.to_nat p) (fun y => rho (T "b") (upd N env s2 y))) mod p)).
+    - rewrite sum_upto_mod by exact Hp.
+      rewrite (sum_upto_ext _ _ (fun x => sum_upto (N.to_nat p) (fun y => rho (T "b") (upd N env s2 y)) *
+                                           rho (T "a") (upd N env s1 x)))
+        by (intros k _; apply N.mul_comm).
+      rewrite sum_upto_mulc. rewrite <- N.mul_mod by exact Hp. rewrite N.mul_comm. reflexivity.
+    - intros k _. rewrite sum_upto_mod by exact Hp. rewrite <- sum_upto_mulc. f_equal.
+      apply sum_upto_ext. intros j _. rewrite Ha. rewrite (upd_comm env s1 s2) by exact s1_s2. rewrite Hb.
+      reflexivity.
+  Qed.
+
+  Lemma rule30 : rule_valid p (nth 30 FPPOOL (mk va va FCTrue)).
+  Proof.
+    cbn [nth FPPOOL]. start. rewrite N.mod_0_l by exact Hp. destruct Hc as [Ha|Hb].
+    - rewrite (sum_upto_ext _ _ (fun _ => rho (T "a") env)) by (intros k _; apply Ha).
+      rewrite sum_const_zero. rewrite N.mul_0_l. apply N.mod_0_l. exact Hp.
+    - rewrite (sum_upto_ext (N.to_nat p) (fun z => rho (T "b") (upd N env s2 z)) (fun _ => rho (T "b") env))
+        by (intros k _; apply Hb).
+      rewrite sum_const_zero. rewrite N.mul_0_r. apply N.mod_0_l. exact Hp.
+  Qed.
+
+  Lemma rule31 : rule_valid p (nth 31 FPPOOL (mk va va FCTrue)).
+  Proof.
+    cbn [nth FPPOOL]. start. destruct Hc as [Hb Hc].
+    rewrite Hc. rewrite (upd_comm env s1 s2) by exact s1_s2. rewrite Hb.
+    rewrite N.mod_mod by exact Hp. reflexivity.
+  Qed.
+
+  Lemma rule32 : rule_valid p (nth 32 FPPOOL (mk va va FCTrue)).
+  Proof.
+    cbn [nth FPPOOL]. start. destruct Hc as [Ha [Hb Hc]].
+    rewrite Ha, Hb, Hc. rewrite N.mod_mod by exact Hp. reflexivity.
+  Qed.
+
+  Lemma rule33 : rule_valid p (nth 33 FPPOOL (mk va va FCTrue)).
+  Proof.
+    cbn [nth FPPOOL]. start. rewrite N.mod_0_l by exact Hp.
+    apply (sum2_zero (fun x y => (rho (T "a") (upd N (upd N env s1 x) s2 y) *
+                                  rho (T "b") (upd N (upd N env s1 x) s2 y)) mod p)).
+    destruct Hc as [[Ha Hb]|[Ha Hb]].
+    - left. intros x x' y. rewrite !(upd_comm env s1 s2) by exact s1_s2. rewrite !Ha, !Hb. reflexivity.
+    - right. intros x y y'. rewrite !Ha, !Hb. reflexivity.
   Qed.
 
   Theorem fppool_valid_sec : Forall (rule_valid p) FPPOOL.
@@ -272,14 +382,18 @@ Section Valid.
             [ first [ exact rule0 | exact rule1 | exact rule2 | exact rule3 | exact rule4 | exact rule5
                     | exact rule6 | exact rule7 | exact rule8 | exact rule9 | exact rule10 | exact rule11
                     | exact rule12 | exact rule13 | exact rule14 | exact rule15 | exact rule16 | exact rule17
-                    | exact rule18 | exact rule19 | exact rule20 | exact rule21 | exact rule22 | exact rule23 ] | ]).
+                    | exact rule18 | exact rule19 | exact rule20 | exact rule21 | exact rule22 | exact rule23
+                    | exact rule24 | exact rule25 | exact rule26 | exact rule27 | exact rule28 | exact rule29
+                    | exact rule30 | exact rule31 | exact rule32 | exact rule33 ] | ]).
     apply Forall_nil.
   Qed.
 End Valid.
 
 (* for every modulus (in particular every prime) and every rule of the pool: under every valuation of the
    pattern variables by carrier-valued functions of the environment that ignores the rule's fresh slots and
-   satisfies its slot_free_in condition, and under every environment, both sides denote the same value *)
+   for which the facts guaranteed by the truth of its condition hold ([cond_ok] = [cond_sem true]: a true
+   slot_free_in gives independence, a false one nothing; and / or / not combine the two readings), and under
+   every environment, both sides denote the same value *)
 Theorem fppool_valid : forall p, p <> 0 -> forall r, In r FPPOOL ->
   forall rho, in_range p rho -> fresh_ok r rho -> cond_ok r rho ->
   forall env, peval p rho env (fr_lhs r) = peval p rho env (fr_rhs r).
@@ -430,6 +544,22 @@ Section Inst.
   Lemma indep_of_notfree : forall sigma v x, ~ In x (free_slots (sigma v)) -> indep (rho_of p sigma) v x.
   Proof.
     intros sigma v x Hn env z. unfold rho_of. apply feval_upd_notfree. exact Hn.
+  Qed.
+
+  (* the truth value of the condition as the implementation evaluates it (syntactically, on the matched
+     terms) guarantees its reading [cond_sem] for the induced valuation *)
+  Lemma cond_eval_sound : forall sigma c pos, cond_eval sigma c = pos -> cond_sem pos c (rho_of p sigma).
+  Proof.
+    intros sigma. induction c as [|x v|a IHa b IHb|a IHa b IHb|a IHa]; intros pos H; cbn [cond_eval cond_sem] in *.
+    - subst pos. exact I.
+    - destruct pos; [|exact I]. apply indep_of_notfree. apply not_mem. apply Bool.negb_true_iff. exact H.
+    - destruct pos.
+      + apply andb_prop in H. destruct H as [H1 H2]. split; [apply IHa; exact H1|apply IHb; exact H2].
+      + apply Bool.andb_false_iff in H. destruct H as [H|H]; [left; apply IHa; exact H|right; apply IHb; exact H].
+    - destruct pos.
+      + apply Bool.orb_true_iff in H. destruct H as [H|H]; [left; apply IHa; exact H|right; apply IHb; exact H].
+      + apply Bool.orb_false_iff in H. destruct H as [H1 H2]. split; [apply IHa; exact H1|apply IHb; exact H2].
+    - apply IHa. rewrite <- H. rewrite Bool.negb_involutive. reflexivity.
   Qed.
 
   (* ------------------------------------------------------------------ *)
@@ -628,8 +758,7 @@ Section Inst.
       + intros x Hx Hnx v Hv. apply indep_of_notfree.
         apply (disjoint_spec (fresh_slots r)); [exact (Hfr v Hv)|].
         unfold fresh_slots. apply filter_In. split; [exact Hx|]. rewrite (mem_false _ _ Hnx). reflexivity.
-      + unfold cond_ok. destruct (fr_cond r) as [[x v]|]; [|exact I].
-        apply indep_of_notfree. apply not_mem. apply Bool.negb_true_iff. exact Hcd.
+      + unfold cond_ok. apply cond_eval_sound. exact Hcd.
     - intros x Hx. apply tslots_inst in Hx. destruct Hx as [Hx|[v [Hv Hx]]].
       + apply (pool_slots_ok r Hr). apply in_or_app. right. exact Hx.
       + apply (Hwf v); [apply in_or_app; right; exact Hv|exact Hx].
@@ -651,3 +780,92 @@ Section Inst.
     pose proof (rule_instance_valid ru Hr sigma Hm Hwf env) as H. rewrite <- Heq in H. exact H.
   Qed.
 End Inst.
+
+(* ------------------------------------------------------------------ *)
+(* 6. the combinators matter: the three slips of an implementation of the condition combinators
+   (`and` evaluated as `or`, `or` evaluated as `and`, `not` evaluated as the identity) turn the listed pool
+   rules into INVALID rules of F_2 — so a wrong firing unions two terms of different value, which the
+   evaluator of Sem/FpMachine.v sees. *)
+
+Inductive slip := AndAsOr | OrAsAnd | NotDropped.
+
+Fixpoint slip_cond (m : slip) (c : fcond) : fcond :=
+  match c with
+  | FCTrue | FCFree _ _ => c
+  | FCAnd a b => match m with
+                 | AndAsOr => FCOr (slip_cond m a) (slip_cond m b)
+                 | _ => FCAnd (slip_cond m a) (slip_cond m b)
+                 end
+  | FCOr a b => match m with
+                | OrAsAnd => FCAnd (slip_cond m a) (slip_cond m b)
+                | _ => FCOr (slip_cond m a) (slip_cond m b)
+                end
+  | FCNot a => match m with
+               | NotDropped => slip_cond m a
+               | _ => FCNot (slip_cond m a)
+               end
+  end.
+
+Definition slip_rule (m : slip) (r : frule) : frule :=
+  {| fr_lhs := fr_lhs r; fr_rhs := fr_rhs r; fr_cond := slip_cond m (fr_cond r) |}.
+
+(* sigma is an admissible match of r and the two sides of the instance differ at env *)
+Definition refutes (p : N) (r : frule) (sigma : text -> fterm) (env : fenv) : bool :=
+  match_ok r sigma && negb (feval p env (inst sigma (fr_lhs r)) =? feval p env (inst sigma (fr_rhs r))).
+
+Lemma refutes_sound : forall p r sigma env, p <> 0 -> refutes p r sigma env = true -> ~ rule_valid p r.
+Proof.
+  intros p r sigma env Hp Href Hv. unfold refutes in Href.
+  apply andb_prop in Href. destruct Href as [Hm Hne].
+  apply Bool.negb_true_iff in Hne. apply N.eqb_neq in Hne. apply Hne. clear Hne.
+  unfold match_ok in Hm. apply andb_prop in Hm. destruct Hm as [Hm Hsr].
+  apply andb_prop in Hm. destruct Hm as [Hm Hsl]. apply andb_prop in Hm. destruct Hm as [Hfr Hcd].
+  rewrite forallb_forall in Hfr.
+  rewrite !(feval_inst p Hp) by assumption.
+  apply Hv.
+  - apply in_range_rho_of. exact Hp.
+  - intros x Hx Hnx v Hv'. apply indep_of_notfree.
+    apply (disjoint_spec (fresh_slots r)); [exact (Hfr v Hv')|].
+    unfold fresh_slots. apply filter_In. split; [exact Hx|]. rewrite (mem_false _ _ Hnx). reflexivity.
+  - unfold cond_ok. apply cond_eval_sound. exact Hcd.
+Qed.
+
+Definition sig_of (l : list (string * fterm)) : text -> fterm :=
+  fun v => match find (fun e : string * fterm => text_eqb (T (fst e)) v) l with
+           | Some e => snd e
+           | None => TNum 0
+           end.
+
+(* $3 = slot 12 has the value 1, every other slot the value 0 *)
+Definition wenv : fenv := fun x => if x =? 12 then 1 else 0.
+Definition y3 : fterm := TVar 12.
+
+(* (rule number, slip, a match on which the slipped condition is true and the two sides differ mod 2) *)
+Definition SLIP_WITNESSES : list (nat * slip * list (string * fterm)) :=
+  [ (24%nat, AndAsOr, [("a", y3); ("b", TVar s1)]);
+    (25%nat, AndAsOr, [("a", y3); ("b", TVar s1); ("t", TNum 1)]);
+    (26%nat, OrAsAnd, [("a", y3); ("b", TVar s1); ("t", TNum 1)]);
+    (26%nat, NotDropped, [("a", y3); ("b", TVar s1); ("t", TNum 1)]);
+    (27%nat, AndAsOr, [("a", TVar s1); ("b", TVar s1)]);
+    (29%nat, AndAsOr, [("a", TMul (TVar s1) (TVar s2)); ("b", TVar s2)]);
+    (31%nat, AndAsOr, [("b", TVar s1); ("c", TNum 0); ("t", TNum 1)]);
+    (32%nat, AndAsOr, [("a", TVar s1); ("b", TNum 0); ("c", TNum 0); ("t", TNum 1)]);
+    (33%nat, AndAsOr, [("a", TVar s2); ("b", TMul (TVar s1) (TVar s2))]) ]%string.
+
+Definition slipped (w : nat * slip * list (string * fterm)) : frule :=
+  slip_rule (snd (fst w)) (nth (fst (fst w)) FPPOOL (mk va va FCTrue)).
+
+Lemma slip_witnesses_refute :
+  forallb (fun w => refutes 2 (slipped w) (sig_of (snd w)) wenv) SLIP_WITNESSES = true.
+Proof. vm_compute. reflexivity. Qed.
+
+(* the unslipped rules do not fire on these matches *)
+Lemma slip_witnesses_guarded :
+  forallb (fun w => negb (match_ok (nth (fst (fst w)) FPPOOL (mk va va FCTrue)) (sig_of (snd w)))) SLIP_WITNESSES = true.
+Proof. vm_compute. reflexivity. Qed.
+
+Theorem fppool_guards_needed : forall w, In w SLIP_WITNESSES -> ~ rule_valid 2 (slipped w).
+Proof.
+  intros w Hw. pose proof slip_witnesses_refute as H. rewrite forallb_forall in H.
+  apply (refutes_sound 2 (slipped w) (sig_of (snd w)) wenv); [discriminate|]. exact (H w Hw).
+Qed.
